@@ -2,6 +2,7 @@
 from ..harness import *
 from ..player import *
 from ..tlayer import *
+from ..wlayer import PipelineOb
 
 
 def obligations(ctx):
@@ -17,13 +18,16 @@ def obligations(ctx):
             # tokenizer side: unknown characters and names without `(` give no token (every string of 0..2 characters, all keywords)
             for k in (0, 1, 2):
                 obs.append(full_alphabet('C03', ev, k, oc, tag))
+            # W: the public function is exactly eval(parse(new(strip(input), Some(placeholder)))): no Ok that bypasses a stage
+            for k in range(0, 4 if ctx.tier == 'quick' else 6):
+                obs.append(PipelineOb('C03', ev, k, oc=oc))
     return obs
 
 
 def run(ctx):
     results = run_obligations(ctx, obligations(ctx))
     bounds = dict(layer='P: Parser::new + parse of each of the five parsers (all of parser.rs from MIR) over every stream of exactly K symbolic tokens, K = 0..3 (thorough 0..4), over the evaluator\'s complete token vocabulary with symbolic payloads; '
-                        'T: every string of 0..2 characters over the whole of Unicode',
+                        'T: every string of 0..2 characters over the whole of Unicode; W: mod.rs of each evaluator on every string of 0..3 (thorough 0..5) arbitrary characters with Parser::new, Parser::parse and ast::eval as nondeterministic stubs',
                   configurations=['overflow-checks=on'] + (['overflow-checks=off'] if ctx.tier == 'thorough' else []))
     outside = ['streams longer than K tokens: argued by the structure of the precedence-climbing loop, not shown', 'characters that are no token of the evaluator are covered at the tokenizer layer (T) and end to end in C01/C13',
                '"every well-formed expression whose operations are all defined evaluates to Ok": the parser half is shown here (accepted sets are equal), definedness of operations is the E layer (C05-C11)']
